@@ -319,6 +319,8 @@ func runCase() {
 		caseIndexRoll(res, dir)
 	case "boundary":
 		caseBoundary(res, idx, dir)
+	case "gcroll":
+		caseGCRoll(res, idx, dir, seed, tier)
 	}
 	seam.Restore()
 	data, _ := json.Marshal(res)
